@@ -58,6 +58,12 @@ def combconc(n, items, amb):
             'INVARIANTS ExactlyOneComplete AtMostOneComplete CompleteIsLast NothingLost OneWinner WinnerComplete\nCHECK_DEADLOCK FALSE\n' % (n, items, 'TRUE' if amb else 'FALSE'))
 
 
+def timedops(n):
+    return ('TimedOps', 'timedops_%d' % n,
+            'SPECIFICATION Spec\nCONSTANTS D = 100\n Gaps = {40, 90, 110, 260}\n MaxEvents = %d\n CancelOnEnd = TRUE\n'
+            'INVARIANTS TimeoutExact NoTimeoutBeforeFirstItem OneTerminalLast TimeoutHappens ExitWithinOnePeriod\nPROPERTY AllExit\nCHECK_DEADLOCK FALSE\n' % n)
+
+
 C19INV = ['AtMostOneTerminal', 'NothingStartedAfterTerminal', 'ExactlyOneAtTheEnd']
 CONC = {
     # property: (monitor flags of ConcProps.Judge, design-level models quick, thorough)
@@ -67,8 +73,8 @@ CONC = {
     'C07': (['C07'], [schedqueue(2, 2, '{11}', 'deadlock_2x2')], [schedqueue(2, 3, '{11}', 'deadlock_2x3'), schedqueue(3, 1, '{11}', 'deadlock_3x1')]),
     'C08': (['C08'], [schedqueue(2, 2, '{11}', '2x2_abort_inside')], [schedqueue(2, 2, '{11}', '2x2_abort_inside'), schedqueue(2, 3, '{}', '2x3'), schedqueue(3, 1, '{11}', '3x1')]),
     'C09': (['C09'], [schedqueue(1, 3, '{13}', 'handoff_1x3_abort_in_last')], [schedqueue(1, 3, '{13}', 'handoff_1x3_abort_in_last'), schedqueue(2, 2, '{}', 'handoff_2x2')]),
-    'C15': (['C15'], [schedqueue(1, 2, '{12}', 'lifecycle')], [schedqueue(2, 2, '{11}', 'lifecycle2')]),
-    'C16': (['C16'], [], []),
+    'C15': (['C15'], [schedqueue(1, 2, '{12}', 'lifecycle'), timedops(3)], [schedqueue(2, 2, '{11}', 'lifecycle2'), timedops(4)]),
+    'C16': (['C16'], [timedops(3)], [timedops(4)]),
     'C18': (['C18'], [tovec(2, False), tovec(2, True)], [tovec(4, False), tovec(4, True)]),
     'C12': (['C12'], [subjconc('plain', 3, False), subjconc('plain', 3, True), subjconc('replay', 3, False, 'NoDup (KF-C12-replay-latesub-duplicate)'), subjconc('behavior', 3, False, 'NoDup (KF-C12-behavior-latesub-duplicate)')],
             [subjconc('plain', 4, False), subjconc('plain', 4, True), subjconc('replay', 4, False, 'NoDup (KF-C12-replay-latesub-duplicate)'), subjconc('behavior', 4, True, 'NoDup (KF-C12-behavior-latesub-duplicate)')]),
